@@ -34,7 +34,7 @@ for t in missing:
     path = mod.replace('.', '/') + '.py'
     ok = False
     if os.path.exists(os.path.join(REPO, path)) and len(missing) <= 5:
-        for _ in range(3):
+        for _ in range(10 if name == "test_each_unit_roundtrips" else 3):
             _clean()
             r = subprocess.run(['/venv/bin/python', '-m', 'pytest', '-q', '-p', 'no:cacheprovider',
                                 f'{path}::{name}'], cwd=REPO, env=env, stdout=subprocess.DEVNULL, stderr=subprocess.DEVNULL)
